@@ -27,10 +27,14 @@ COMMENTS = ['(* c *)', '(**)', '(* ( *)', '(* a * b *)', '(* line1\nline2 *)', '
             # comments that end in several asterisks (the closing `)` after an even / odd number of `*`)
             '(** d **)', '(* e ***)', '(* f **)', '(****)', '(***)', '(** g\nh **)',
             # braces inside comments (pragma-like text is text there)
-            '(* { *)', '(* } *)', '(* {x *)', '(* a } b { c *)']
+            '(* { *)', '(* } *)', '(* {x *)', '(* a } b { c *)',
+            # a carriage return on its own inside a comment (it ends no line)
+            '(* a\rb *)', '(* cr\r *) ']
 ADDRESSES = ['%IX1', '%QW2', '%MD3', '%I*', '%Q*', '%ix1', '%IX1.2', '%MB0.0.1']
 WS = [' ', '  ', '\t', ' \t ', '\n', '\r\n', '\n\n', ' \n ', '\r\n\r\n', '\n\t']
-ERRCHARS = ['?', '$', '@', '!', '~', '`', '\\', 'é', 'ß', '日', '\r', '€', '%', '|', '&&', '^', '\x00', '\x7f']
+ERRCHARS = ['?', '$', '@', '!', '~', '`', '\\', 'é', 'ß', '日', '\r', '€', '%', '|', '&&', '^', '\x00', '\x7f',
+            # white space of other alphabets is not white space of this language
+            '\u00a0', '\u2028', '\x0b', '\u0085', '\u3000']
 OPENERS = ['(* never closed', "'never closed", '"never closed', '(* a **) x', '(***)', '(*)']
 
 
